@@ -713,6 +713,16 @@ func GenRun(verifSeed uint64, run int, tier string, profiles []string) *RunSpec 
 					st.Repeat = true
 				}
 			}
+			if st.AsPaths {
+				switch st.Op {
+				case "and", "or", "xor", "not", "div", "settle":
+					// a list of paths may hold empty ones (results of earlier operations often are):
+					// a code path of its own in the sweep's set-up (s45). Stream of its own.
+					if x := simrt.Mix(seed, 0xe5b, uint64(t), uint64(s)); x%100 < 25 {
+						st.EmptySub = 1 + int((x>>8)%3)
+					}
+				}
+			}
 			if st.Op == "measure" && simrt.Mix(seed, 0x5fa, uint64(t), uint64(s))%100 < 60 {
 				// neither call reaches a decision point or returns an object, so turning one into the
 				// other leaves the schedules of the run's other calls what they were
